@@ -416,6 +416,17 @@ Definition psl_contract : Prop :=
 End Oracles.
 
 (* ------------------------------------------------------------------ L0 vocabulary *)
+(* the registrable domain of a host: the suffix chosen by the public-suffix oracle *)
+Definition domain_of (psl : str -> nat * nat) (host : str) : str := drop (fst (psl host)) host.
+
+(* [r] with another original_url (Request::preparsed keeps the URL it is given as the original) *)
+Definition with_original (r : request) (o : str) : request :=
+  {| request_type_of := request_type_of r; is_http := is_http r; is_https := is_https r;
+     is_supported := is_supported r; is_third_party := is_third_party r; url := url r;
+     hostname := hostname r; source_hostname_hashes := source_hostname_hashes r;
+     url_lower_cased := url_lower_cased r; request_tokens := request_tokens r; original_url := o |}.
+
+
 Definition supported_schemes : list str := [S_HTTP; S_HTTPS; S_WS; S_WSS].
 Definition websocket_schemes : list str := [S_WS; S_WSS].
 
